@@ -62,21 +62,42 @@ Proof.
   destruct (n <? 10)%nat; [discriminate|]. destruct f; [cbn; discriminate|]. apply IH. discriminate.
 Qed.
 
-(** the reader's representation of the marker the writer writes *)
-Definition mrep (m : nat) : marker := if (m <? 10)%nat then MDigit m else MPct (ddigits m).
-Lemma mrep_str m : marker_str (mrep m) = marker_text m.
+(** the reader's representation of the marker the writer writes; [a] = a marker of the same node was already
+    written in the % form (then the writer writes `%0n` for a one-digit marker, fix b681517) *)
+Definition pdigits (m : nat) : list nat := if (m <? 10)%nat then [0%nat; m] else ddigits m.
+Definition mrep (a : bool) (m : nat) : marker := if (m <? 10)%nat && negb a then MDigit m else MPct (pdigits m).
+Lemma pdigits_str m : "%"%char :: digits_str (pdigits m) = pct_text m.
 Proof.
-  unfold mrep, marker_text. destruct (Nat.ltb_spec m 10) as [H|H].
-  - cbn [marker_str]. do 10 (destruct m as [|m]; [reflexivity|]). lia.
-  - cbn [marker_str]. unfold digits_str. now rewrite str_of_nat_digits.
+  unfold pdigits, pct_text. destruct (Nat.ltb_spec m 10) as [H|H]; f_equal.
+  - cbn [digits_str map]. do 10 (destruct m as [|m]; [reflexivity|]). lia.
+  - unfold digits_str. now rewrite str_of_nat_digits.
 Qed.
-Lemma mrep_val m : marker_val (mrep m) = Z.of_nat m.
-Proof. unfold mrep. destruct (m <? 10)%nat; cbn [marker_val]; [reflexivity|]. now rewrite ddigits_val. Qed.
-Lemma mrep_ok m : marker_ok (mrep m) = true.
+Lemma mrep_str a m : marker_str (mrep a m) = marker_text a m.
 Proof.
-  unfold mrep. destruct (Nat.ltb_spec m 10) as [H|H]; cbn [marker_ok]; [now apply Nat.ltb_lt|].
-  unfold digits_ok. pose proof (dig_acc_nonempty (Datatypes.S m) m [] ltac:(discriminate)) as Hn. fold (ddigits m) in Hn.
-  destruct (ddigits m) eqn:E; [contradiction|]. rewrite <- E. apply dig_acc_small. reflexivity.
+  unfold mrep, marker_text. destruct ((m <? 10)%nat && negb a) eqn:E.
+  - apply andb_prop in E as [H _]. apply Nat.ltb_lt in H. cbn [marker_str]. do 10 (destruct m as [|m]; [reflexivity|]). lia.
+  - cbn [marker_str]. apply pdigits_str.
+Qed.
+Lemma pdigits_val m : digits_nat (pdigits m) = m.
+Proof. unfold pdigits. destruct (m <? 10)%nat; [unfold digits_nat; cbn; lia|apply ddigits_val]. Qed.
+Lemma mrep_val a m : marker_val (mrep a m) = Z.of_nat m.
+Proof. unfold mrep. destruct ((m <? 10)%nat && negb a); cbn [marker_val]; [reflexivity|]. now rewrite pdigits_val. Qed.
+Lemma mrep_ok a m : marker_ok (mrep a m) = true.
+Proof.
+  unfold mrep. destruct ((m <? 10)%nat && negb a) eqn:E; cbn [marker_ok].
+  - now apply andb_prop in E as [H _].
+  - unfold pdigits. destruct (Nat.ltb_spec m 10) as [H|H].
+    + unfold digits_ok. cbn [forallb]. apply Nat.ltb_lt in H. now rewrite H.
+    + unfold digits_ok. pose proof (dig_acc_nonempty (Datatypes.S m) m [] ltac:(discriminate)) as Hn. fold (ddigits m) in Hn.
+      destruct (ddigits m) eqn:E'; [contradiction|]. rewrite <- E'. apply dig_acc_small. reflexivity.
+Qed.
+(** the writer never leaves a one-digit form behind a % form *)
+Lemma mrep_after m : is_pct (mrep true m) = true.
+Proof. unfold mrep. now rewrite andb_false_r. Qed.
+Lemma mrep_pct_flag a m : is_pct (mrep a m) = true -> (a || (10 <=? m)%nat) = true.
+Proof.
+  unfold mrep. destruct a; [reflexivity|]. cbn [negb orb]. rewrite andb_true_r.
+  destruct (Nat.ltb_spec m 10) as [H|H]; [discriminate|]. intros _. now apply Nat.leb_le.
 Qed.
 
 (** ------------------------------------------------------------------ ring items of one node *)
@@ -104,31 +125,54 @@ Section RingLin.
   Variable rsym_o : nat -> option sym.         (* symbol of ring [ri], written at its opening marker *)
   Definition rsymt (ri : nat) : pystr := osym_str (rsym_o ri).
 
-  Fixpoint ring_items (mk : marks) (ris : list nat) : marks * list (option sym * marker) :=
+  Fixpoint ring_items (a : bool) (mk : marks) (ris : list nat) : marks * list (option sym * marker) :=
     match ris with
     | [] => (mk, [])
     | ri :: r =>
         match mk_get ri mk with
         | None => let m := get_ring_marker (map snd mk) in
-                  let '(mk2, it2) := ring_items (mk ++ [(ri, m)]) r in (mk2, (rsym_o ri, mrep m) :: it2)
-        | Some m => let '(mk2, it2) := ring_items (mk_del ri mk) r in (mk2, (None, mrep m) :: it2)
+                  let '(mk2, it2) := ring_items (a || (10 <=? m)%nat) (mk ++ [(ri, m)]) r in (mk2, (rsym_o ri, mrep a m) :: it2)
+        | Some m => let '(mk2, it2) := ring_items (a || (10 <=? m)%nat) (mk_del ri mk) r in (mk2, (None, mrep a m) :: it2)
         end
     end.
-  Lemma ring_items_pure : forall ris mk,
-    fst (ring_items mk ris) = fst (fst (ring_pure rsymt mk ris))
-    /\ concat (map plain_item (snd (ring_items mk ris))) = snd (fst (ring_pure rsymt mk ris))
-    /\ forallb (fun om => marker_ok (snd om)) (snd (ring_items mk ris)) = true.
+  Lemma ring_items_pure : forall ris a mk,
+    fst (ring_items a mk ris) = fst (fst (ring_pure rsymt a mk ris))
+    /\ concat (map plain_item (snd (ring_items a mk ris))) = snd (fst (ring_pure rsymt a mk ris))
+    /\ forallb (fun om => marker_ok (snd om)) (snd (ring_items a mk ris)) = true.
   Proof.
-    induction ris as [|ri r IH]; intros mk; [repeat split|]. cbn [ring_items RingDefs.ring_pure].
+    induction ris as [|ri r IH]; intros a mk; [repeat split|]. cbn [ring_items RingDefs.ring_pure].
     destruct (mk_get ri mk) as [m|].
-    - destruct (IH (mk_del ri mk)) as (A & B & C).
-      destruct (ring_items (mk_del ri mk) r) as [mk2 it2]. destruct (ring_pure rsymt (mk_del ri mk) r) as [[x y] z].
+    - destruct (IH (a || (10 <=? m)%nat) (mk_del ri mk)) as (A & B & C).
+      destruct (ring_items (a || (10 <=? m)%nat) (mk_del ri mk) r) as [mk2 it2].
+      destruct (ring_pure rsymt (a || (10 <=? m)%nat) (mk_del ri mk) r) as [[x y] z].
       cbn [fst snd map concat forallb] in *. unfold plain_item at 1. cbn [fst snd osym_str app]. rewrite mrep_str, mrep_ok, B. auto.
-    - destruct (IH (mk ++ [(ri, get_ring_marker (map snd mk))])) as (A & B & C).
-      destruct (ring_items (mk ++ [(ri, get_ring_marker (map snd mk))]) r) as [mk2 it2].
-      destruct (ring_pure rsymt (mk ++ [(ri, get_ring_marker (map snd mk))]) r) as [[x y] z].
+    - set (m := get_ring_marker (map snd mk)).
+      destruct (IH (a || (10 <=? m)%nat) (mk ++ [(ri, m)])) as (A & B & C).
+      destruct (ring_items (a || (10 <=? m)%nat) (mk ++ [(ri, m)]) r) as [mk2 it2].
+      destruct (ring_pure rsymt (a || (10 <=? m)%nat) (mk ++ [(ri, m)]) r) as [[x y] z].
       cbn [fst snd map concat forallb] in *. unfold plain_item at 1. cbn [fst snd]. rewrite mrep_str, mrep_ok, B.
       unfold rsymt. rewrite <- app_assoc. auto.
+  Qed.
+  (** the items of one node never have a one-digit form directly behind a % form: the pattern the reader would
+      read as ONE marker is not written any more (fix b681517) *)
+  Lemma ring_items_ok_rings : forall ris a prev mk, (prev = true -> a = true) ->
+    ok_rings prev (snd (ring_items a mk ris)) = true.
+  Proof.
+    induction ris as [|ri r IH]; intros a prev mk Hpa; [reflexivity|]. cbn [ring_items].
+    assert (Step : forall o m, (pct_form prev o (mrep a m) = true -> (a || (10 <=? m)%nat) = true)
+                   /\ negb (prev && match o, mrep a m with None, MDigit _ => true | _, _ => false end) = true).
+    { intros o m. split.
+      - unfold pct_form. intros H. apply orb_prop in H as [H|H]; [now apply mrep_pct_flag|].
+        apply andb_prop in H as [H _]. now rewrite (Hpa H).
+      - destruct prev; [|reflexivity]. rewrite (Hpa eq_refl). cbn [andb]. destruct o; [reflexivity|].
+        pose proof (mrep_after m) as Hm. destruct (mrep true m); [discriminate|reflexivity]. }
+    destruct (mk_get ri mk) as [m|].
+    - destruct (Step None m) as [S1 S2].
+      specialize (IH (a || (10 <=? m)%nat) (pct_form prev None (mrep a m)) (mk_del ri mk) S1).
+      destruct (ring_items (a || (10 <=? m)%nat) (mk_del ri mk) r) as [mk2 it2]. cbn [snd ok_rings] in *. now rewrite S2, IH.
+    - set (m := get_ring_marker (map snd mk)). destruct (Step (rsym_o ri) m) as [S1 S2].
+      specialize (IH (a || (10 <=? m)%nat) (pct_form prev (rsym_o ri) (mrep a m)) (mk ++ [(ri, m)]) S1).
+      destruct (ring_items (a || (10 <=? m)%nat) (mk ++ [(ri, m)]) r) as [mk2 it2]. cbn [snd ok_rings] in *. now rewrite S2, IH.
   Qed.
 
   Definition mklinR (isb : bool) (k : Z) (rs : list (option sym * marker)) (b : option sym) (c : option (option sym)) : lin :=
@@ -138,7 +182,7 @@ Section RingLin.
     match t with
     | RNode k cs =>
         let d1 := if isb then Datatypes.S d else d in
-        let '(mk1, rs) := ring_items mk (rlist k) in
+        let '(mk1, rs) := ring_items false mk (rlist k) in
         match cs with
         | [] => ([mklinR isb k rs (if (0 <? d1)%nat then None else ns) (if (0 <? d1)%nat then Some ns else None)], mk1)
         | c1 :: bs =>
@@ -178,7 +222,7 @@ Section RingLin.
   Lemma tlinsR_unfold isb d ns mk k c1 bs :
     tlinsR isb d ns mk (RNode k (c1 :: bs))
     = (let d1 := if isb then Datatypes.S d else d in
-       let '(mk1, rs) := ring_items mk (rlist k) in
+       let '(mk1, rs) := ring_items false mk (rlist k) in
        let '(lb, mkb) := blinsR k d1 mk1 c1 bs in
        let '(lc, mkc) := tlinsR false d1 ns mkb c1 in
        (mklinR isb k rs (esym k (rkey (last bs c1))) None :: lb ++ lc, mkc)).
@@ -191,7 +235,7 @@ Section RingLin.
   Lemma wtextR_unfold p isb d mk k c1 bs :
     wtextR p isb d mk (RNode k (c1 :: bs))
     = (let d1 := if isb then Datatypes.S d else d in
-       let '(mk1, rt, trc) := ring_pure rsymt mk (rlist k) in
+       let '(mk1, rt, trc) := ring_pure rsymt false mk (rlist k) in
        let '(tb, mkb, mb) := wbranchesR k d1 mk1 bs in
        let '(tc, mkc, mc) := wtextR (Some k) false d1 mkb c1 in
        (whead false (ntext name) (stext esym) p isb k ++ rt ++ tb ++ tc, mkc, trace_entry k trc ++ mb ++ mc)).
@@ -207,11 +251,11 @@ Section RingLin.
   Proof.
     apply (rtree_ind2 (fun t => forall p isb d ns mk, snd (tlinsR isb d ns mk t) = snd (fst (wtextR p isb d mk t)))).
     intros k cs IH p isb d ns mk. destruct cs as [|c1 bs].
-    - cbn [tlinsR RingDefs.wtextR]. destruct (ring_items_pure (rlist k) mk) as (A & _ & _).
-      destruct (ring_items mk (rlist k)) as [mk1 rs]. destruct (ring_pure rsymt mk (rlist k)) as [[x y] z]. exact A.
+    - cbn [tlinsR RingDefs.wtextR]. destruct (ring_items_pure (rlist k) false mk) as (A & _ & _).
+      destruct (ring_items false mk (rlist k)) as [mk1 rs]. destruct (ring_pure rsymt false mk (rlist k)) as [[x y] z]. exact A.
     - rewrite tlinsR_unfold, wtextR_unfold. cbv zeta. set (d1 := if isb then Datatypes.S d else d).
-      destruct (ring_items_pure (rlist k) mk) as (A & _ & _).
-      destruct (ring_items mk (rlist k)) as [mk1 rs]. destruct (ring_pure rsymt mk (rlist k)) as [[x y] z]. cbn [fst] in A. subst x.
+      destruct (ring_items_pure (rlist k) false mk) as (A & _ & _).
+      destruct (ring_items false mk (rlist k)) as [mk1 rs]. destruct (ring_pure rsymt false mk (rlist k)) as [[x y] z]. cbn [fst] in A. subst x.
       assert (B : forall l prev, Forall (fun t => forall p isb d ns mk, snd (tlinsR isb d ns mk t) = snd (fst (wtextR p isb d mk t))) l ->
                   snd (blinsR k d1 mk1 prev l) = snd (fst (wbranchesR k d1 mk1 l))).
       { induction l as [|c r IHr]; intros prev Hl; [reflexivity|]. rewrite blinsR_cons, wbranchesR_cons.
@@ -235,6 +279,30 @@ Section RingLin.
     destruct (tlinsR true d1 (esym k (rkey prev)) mk2 c) as [l1 mk3]. destruct (wtextR (Some k) true d1 mk2 c) as [[t1 mk3'] m1]. exact Hc.
   Qed.
 
+  (** no node of the writer's item list has the `%nn`-then-digit pattern *)
+  Lemma tlinsR_rings_plain : forall t isb d ns mk, rings_plain (fst (tlinsR isb d ns mk t)) = true.
+  Proof.
+    apply (rtree_ind2 (fun t => forall isb d ns mk, rings_plain (fst (tlinsR isb d ns mk t)) = true)).
+    intros k cs IH isb d ns mk.
+    pose proof (ring_items_ok_rings (rlist k) false false mk (fun H => H)) as Hk.
+    destruct cs as [|c1 bs].
+    - cbn [tlinsR]. destruct (ring_items false mk (rlist k)) as [mk1 rs]. cbn [fst snd] in *.
+      unfold rings_plain. cbn [forallb mklinR l_rings]. now rewrite Hk.
+    - rewrite tlinsR_unfold. cbv zeta. set (d1 := if isb then Datatypes.S d else d).
+      destruct (ring_items false mk (rlist k)) as [mk1 rs]. cbn [snd] in Hk.
+      assert (B : forall l prev, Forall (fun t => forall isb d ns mk, rings_plain (fst (tlinsR isb d ns mk t)) = true) l ->
+                  rings_plain (fst (blinsR k d1 mk1 prev l)) = true).
+      { induction l as [|c r IHr]; intros prev Hl; [reflexivity|]. rewrite blinsR_cons.
+        specialize (IHr c (Forall_inv_tail Hl)). destruct (blinsR k d1 mk1 c r) as [l2 mk2]. cbn [fst] in IHr.
+        pose proof (Forall_inv Hl true d1 (esym k (rkey prev)) mk2) as Hc.
+        destruct (tlinsR true d1 (esym k (rkey prev)) mk2 c) as [l1 mk3]. cbn [fst] in *.
+        unfold rings_plain in *. now rewrite forallb_app, IHr, Hc. }
+      specialize (B bs c1 (Forall_inv_tail IH)). destruct (blinsR k d1 mk1 c1 bs) as [lb mkb]. cbn [fst] in B.
+      pose proof (Forall_inv IH false d1 ns mkb) as Hc.
+      destruct (tlinsR false d1 ns mkb c1) as [lc mkc]. cbn [fst] in *.
+      unfold rings_plain in *. cbn [forallb mklinR l_rings]. now rewrite Hk, forallb_app, B, Hc.
+  Qed.
+
   (** the text (CG mode): symbols move to the end of the previous item, markers stay behind their node *)
   Lemma wtextR_lins : forall t p isb d ns mk, rings_plain (fst (tlinsR isb d ns mk t)) = true ->
     insym esym p (rkey t) ++ lins_str (fst (tlinsR isb d ns mk t)) = fst (fst (wtextR p isb d mk t)) ++ osym_str ns.
@@ -242,16 +310,16 @@ Section RingLin.
     apply (rtree_ind2 (fun t => forall p isb d ns mk, rings_plain (fst (tlinsR isb d ns mk t)) = true ->
               insym esym p (rkey t) ++ lins_str (fst (tlinsR isb d ns mk t)) = fst (fst (wtextR p isb d mk t)) ++ osym_str ns)).
     intros k cs IH p isb d ns mk Hpl. cbn [rkey]. destruct cs as [|c1 bs].
-    - cbn [tlinsR RingDefs.wtextR] in *. destruct (ring_items_pure (rlist k) mk) as (_ & T & _).
-      destruct (ring_items mk (rlist k)) as [mk1 rs]. destruct (ring_pure rsymt mk (rlist k)) as [[x rt] z]. cbn [fst snd] in *.
+    - cbn [tlinsR RingDefs.wtextR] in *. destruct (ring_items_pure (rlist k) false mk) as (_ & T & _).
+      destruct (ring_items false mk (rlist k)) as [mk1 rs]. destruct (ring_pure rsymt false mk (rlist k)) as [[x rt] z]. cbn [fst snd] in *.
       unfold rings_plain in Hpl. cbn [forallb mklinR l_rings] in Hpl. rewrite andb_true_r in Hpl.
       unfold lins_str. cbn [flat_map]. rewrite app_nil_r, (lin_str_mkR _ _ _ _ _ Hpl), T.
       unfold whead, insym. cbn [andb negb]. rewrite andb_false_r, andb_true_r. cbn [app].
       destruct (0 <? (if isb then Datatypes.S d else d))%nat; cbn [osym_str close_str app];
         rewrite <- ?app_assoc; cbn [app]; rewrite ?app_nil_r; reflexivity.
     - rewrite tlinsR_unfold in *. rewrite wtextR_unfold. cbv zeta in *. set (d1 := if isb then Datatypes.S d else d) in *.
-      destruct (ring_items_pure (rlist k) mk) as (A & T & _).
-      destruct (ring_items mk (rlist k)) as [mk1 rs]. destruct (ring_pure rsymt mk (rlist k)) as [[x rt] z]. cbn [fst snd] in A, T. subst x.
+      destruct (ring_items_pure (rlist k) false mk) as (A & T & _).
+      destruct (ring_items false mk (rlist k)) as [mk1 rs]. destruct (ring_pure rsymt false mk (rlist k)) as [[x rt] z]. cbn [fst snd] in A, T. subst x.
       (* the branches *)
       assert (B : forall l prev, Forall (fun t => forall p isb d ns mk, rings_plain (fst (tlinsR isb d ns mk t)) = true ->
                       insym esym p (rkey t) ++ lins_str (fst (tlinsR isb d ns mk t)) = fst (fst (wtextR p isb d mk t)) ++ osym_str ns) l ->
@@ -282,12 +350,16 @@ Section RingLin.
       rewrite <- !app_assoc. f_equal. f_equal. f_equal. f_equal.
       rewrite lins_str_app, app_assoc, (B Hpb), <- !app_assoc. f_equal. apply Hc. exact Hpc.
   Qed.
+  (** ... for every transcript: the side condition always holds on the repaired writer *)
+  Corollary wtextR_lins_all t p isb d ns mk :
+    insym esym p (rkey t) ++ lins_str (fst (tlinsR isb d ns mk t)) = fst (fst (wtextR p isb d mk t)) ++ osym_str ns.
+  Proof. apply wtextR_lins, tlinsR_rings_plain. Qed.
 End RingLin.
 
 (** ------------------------------------------------------------------ extensionality in the ring-symbol text *)
-Lemma ring_pure_ext f g : (forall ri, f ri = g ri) -> forall ris mk, ring_pure f mk ris = ring_pure g mk ris.
+Lemma ring_pure_ext f g : (forall ri, f ri = g ri) -> forall ris a mk, ring_pure f a mk ris = ring_pure g a mk ris.
 Proof.
-  intros H. induction ris as [|ri r IH]; intros mk; [reflexivity|]. cbn [ring_pure].
+  intros H. induction ris as [|ri r IH]; intros a mk; [reflexivity|]. cbn [ring_pure].
   destruct (mk_get ri mk); rewrite IH, ?H; reflexivity.
 Qed.
 Lemma wtextR_ext sf ntext stext rlist f g : (forall ri, f ri = g ri) ->
@@ -296,7 +368,7 @@ Proof.
   intros H. apply (rtree_ind2 (fun t => forall p isb d mk, wtextR sf ntext stext rlist f p isb d mk t = wtextR sf ntext stext rlist g p isb d mk t)).
   intros k cs IH p isb d mk. destruct cs as [|c1 bs].
   - cbn [wtextR]. now rewrite (ring_pure_ext f g H).
-  - cbn [wtextR]. rewrite (ring_pure_ext f g H). destruct (ring_pure g mk (rlist k)) as [[mk1 rt] trc].
+  - cbn [wtextR]. rewrite (ring_pure_ext f g H). destruct (ring_pure g false mk (rlist k)) as [[mk1 rt] trc].
     set (d1 := if isb then Datatypes.S d else d).
     assert (B : forall l,
               Forall (fun t => forall p isb d mk, wtextR sf ntext stext rlist f p isb d mk t = wtextR sf ntext stext rlist g p isb d mk t) l ->
@@ -325,10 +397,10 @@ Section RingLinOk.
   Notation blinsR := (blinsR name esym rlist rsym_o).
 
   Lemma mklinR_ok isb k mk b c : name_ok fo (name k) = true -> (match c with Some _ => b = None | None => True end) ->
-    lin_ok fo (mklinR name isb k (snd (ring_items rsym_o mk (rlist k))) b c) = true.
+    lin_ok fo (mklinR name isb k (snd (ring_items rsym_o false mk (rlist k))) b c) = true.
   Proof.
     intros Hk Hc. unfold lin_ok, mklinR. cbn [l_name l_rings l_mult l_close l_bond]. rewrite Hk.
-    destruct (ring_items_pure rsym_o (rlist k) mk) as (_ & _ & M). rewrite M. cbn [andb].
+    destruct (ring_items_pure rsym_o (rlist k) false mk) as (_ & _ & M). rewrite M. cbn [andb].
     destruct c; [subst b; reflexivity|reflexivity].
   Qed.
 
@@ -341,11 +413,11 @@ Section RingLinOk.
     assert (Hk : name_ok fo (name k) = true) by (apply Hn; now left).
     destruct cs as [|c1 bs].
     - cbn [RingRead.tlinsR]. pose proof (mklinR_ok isb k mk) as M.
-      destruct (ring_items rsym_o mk (rlist k)) as [mk1 rs]. cbn [fst snd forallb] in *. rewrite andb_true_r.
+      destruct (ring_items rsym_o false mk (rlist k)) as [mk1 rs]. cbn [fst snd forallb] in *. rewrite andb_true_r.
       destruct (0 <? (if isb then Datatypes.S d else d))%nat; apply M; auto.
     - rewrite tlinsR_unfold. cbv zeta. set (d1 := if isb then Datatypes.S d else d).
       pose proof (mklinR_ok isb k mk (esym k (rkey (last bs c1))) None Hk I) as M.
-      destruct (ring_items rsym_o mk (rlist k)) as [mk1 rs]. cbn [snd] in M.
+      destruct (ring_items rsym_o false mk (rlist k)) as [mk1 rs]. cbn [snd] in M.
       assert (B : forall l prev, Forall (fun t => forall isb d ns mk, (forall k, In k (rkeys t) -> name_ok fo (name k) = true) ->
                     forallb (lin_ok fo) (fst (tlinsR isb d ns mk t)) = true) l ->
                   (forall x, In x (flat_map rkeys l) -> name_ok fo (name x) = true) ->
@@ -367,13 +439,13 @@ Section RingLinOk.
     apply (rtree_ind2 (fun t => forall isb d ns mk rest, lin_depth d (fst (tlinsR isb d ns mk t) ++ rest) = lin_depth (dout isb d) rest)).
     intros k cs IH isb d ns mk rest.
     destruct cs as [|c1 bs].
-    - cbn [RingRead.tlinsR]. destruct (ring_items rsym_o mk (rlist k)) as [mk1 rs].
+    - cbn [RingRead.tlinsR]. destruct (ring_items rsym_o false mk (rlist k)) as [mk1 rs].
       cbn [fst app lin_depth mklinR l_open l_close]. unfold dout.
       destruct isb; cbn [Nat.ltb Nat.leb].
       + reflexivity.
       + destruct d as [|d']; cbn [Nat.ltb Nat.leb]; [reflexivity|]. f_equal. lia.
     - rewrite tlinsR_unfold. cbv zeta. set (d1 := if isb then Datatypes.S d else d).
-      destruct (ring_items rsym_o mk (rlist k)) as [mk1 rs].
+      destruct (ring_items rsym_o false mk (rlist k)) as [mk1 rs].
       assert (B : forall l prev rest', Forall (fun t => forall isb d ns mk rest, lin_depth d (fst (tlinsR isb d ns mk t) ++ rest) = lin_depth (dout isb d) rest) l ->
                   lin_depth d1 (fst (blinsR k d1 mk1 prev l) ++ rest') = lin_depth d1 rest').
       { induction l as [|c r IHr]; intros prev rest' Hl; [reflexivity|]. rewrite blinsR_cons.
@@ -390,14 +462,15 @@ Section RingLinOk.
   Lemma tlinsR_first t ns mk : match fst (tlinsR false 0 ns mk t) with i :: _ => negb (l_open i) | [] => true end = true.
   Proof.
     destruct t as [k [|c1 bs]].
-    - cbn [RingRead.tlinsR]. destruct (ring_items rsym_o mk (rlist k)). reflexivity.
-    - rewrite tlinsR_unfold. cbv zeta. destruct (ring_items rsym_o mk (rlist k)).
+    - cbn [RingRead.tlinsR]. destruct (ring_items rsym_o false mk (rlist k)). reflexivity.
+    - rewrite tlinsR_unfold. cbv zeta. destruct (ring_items rsym_o false mk (rlist k)).
       destruct (blinsR k 0 m c1 bs). destruct (tlinsR false 0 ns m0 c1). reflexivity.
   Qed.
 End RingLinOk.
 
 (** transcript level: what the loop writes is read by the reader model as the token machine's denotation of the
-    writer's own item list -- for ANY tree + ring transcript outside the pct pattern *)
+    writer's own item list -- for ANY tree + ring transcript (the former exception, a `%nn` marker followed by a
+    one-digit marker on the same node, is not written any more: fix b681517) *)
 Theorem written_text_is_read_by_the_machine : forall fo name esym rsym_o T tr fmt sym rsym n,
   NoDup (rkeys T) -> (rsize T <= n)%nat ->
   (forall k, In k (rkeys T) -> fmt k = Ok (ntext name k)) ->
@@ -406,13 +479,13 @@ Theorem written_text_is_read_by_the_machine : forall fo name esym rsym_o T tr fm
   (forall ri, rsymt_of rsym tr ri = rsymt rsym_o ri) ->
   (forall k, In k (rkeys T) -> name_ok fo (name k) = true) ->
   let items := fst (tlinsR name esym (rlist_of tr) rsym_o false 0 None [] T) in
-  rings_plain items = true ->
   exists txt, run_writer n (mk_env false fmt sym rsym (redges T) tr) (rkey T)
               = Ok {| r_text := txt; r_visit := worder T;
                       r_mtrace := snd (wtextR false (ntext name) (stext esym) (rlist_of tr) (rsymt rsym_o) None false 0 [] T) |}
               /\ read_cgsmiles fo (S "{" ++ txt ++ S "}") = denote_lin fo items.
 Proof.
-  intros fo name esym rsym_o T tr fmt sym rsym n ND Hn Hf Hs Hr Hrs Hok items Hpl.
+  intros fo name esym rsym_o T tr fmt sym rsym n ND Hn Hf Hs Hr Hrs Hok items.
+  pose proof (tlinsR_rings_plain name esym (rlist_of tr) rsym_o T false 0%nat None []) as Hpl.
   pose proof (write_graph_transcript false fmt sym rsym (ntext name) (stext esym) T tr n ND Hn Hf Hs Hr) as W.
   rewrite (wtextR_ext false (ntext name) (stext esym) (rlist_of tr) _ _ Hrs) in W.
   pose proof (wtextR_lins name esym (rlist_of tr) rsym_o T None false 0%nat None [] Hpl) as E.
